@@ -7,9 +7,11 @@ def check(tier):
             '(built from /repo on every run) are compared, column by column, with spec functions written from the Recommendation over an '
             'independent XML reading of the document: order (pre-order, post-fix priority of transitions), parent, children, ancestors, '
             'type, default completion, history completion, targets, transition type, exit sets, conflict relation (two-sided). All inputs '
-            'are constants, so every obligation is closed and CBMC evaluates it with bounds checking. Programs = corpus, NOT all documents; '
-            'Promela/VHDL copies of the tables are not covered.')
-    return genc_common.account('C05', tier, lambda key, tag, f: key == 'T' and tag in ('C05', ''), expl, 'translation_validation')
+            'are constants, so every obligation is closed and CBMC evaluates it with bounds checking. The Promela copy: the table-initialisation '
+            'statements of the emitted Promela model (valid C as they stand) are cut out mechanically, evaluated, and every column is compared '
+            'with the C table of the same document (obligations C05.pml.*). Programs = corpus, NOT all documents; the VHDL copy of the tables '
+            '(equations in emitted VHDL text) is not covered.')
+    return genc_common.account('C05', tier, lambda key, tag, f: key in ('T', 'P') and tag in ('C05', ''), expl, 'translation_validation')
 
 
 def replay(path):
